@@ -9,6 +9,20 @@ from . import lang
 from .lang import CMP_OPS
 from .rng import Chooser
 
+_PYFOLD = {
+    "+": lambda a, b: a + b,
+    "-": lambda a, b: a - b,
+    "*": lambda a, b: a * b,
+    "/": lambda a, b: a // b,
+    "%": lambda a, b: a % b,
+    "**": lambda a, b: a**b if 0 <= b <= 64 else None,
+    "<<": lambda a, b: (a << b) & 0xFFFFFFFF if 0 <= b < 32 else 0,
+    ">>": lambda a, b: a >> b if 0 <= b < 32 else 0,
+    "AND": lambda a, b: a & b,
+    "OR": lambda a, b: a | b,
+    "XOR": lambda a, b: a ^ b,
+}
+
 VIRTUALS = ["signal-A", "signal-B", "signal-C", "signal-D", "signal-E", "signal-X", "signal-Y",
             "signal-Z", "signal-1", "signal-2", "signal-red", "signal-green", "signal-dot",
             "signal-info", "signal-check"]
@@ -70,6 +84,7 @@ class Ctx:
     def __init__(self):
         self.inputs: list[dict] = []   # {name, type, init, dom}
         self.ints: dict[str, int] = {}
+        self.consts: dict[str, int] = {}     # named Signals whose expression is constant-only
         self.sigs: list[str] = []      # all signal names (inputs + derived)
         self.typed: list[str] = []     # signal names whose type is known to the language rules
         self.stmts: list = []
@@ -106,6 +121,7 @@ class ScalarGen:
         # every named result on a type of its own (keeps programs clear of same-type sums on shared
         # networks, i.e. of the structure of the crosstalk finding): on in a third of the runs
         f["fresh_types"] = ch.chance(1, 3)
+        f["folded_consts"] = ch.chance(1, 3)
         return f
 
     # ---- declarations
@@ -233,6 +249,66 @@ class ScalarGen:
         return ["var", name]
 
     def expr(self, depth: int):
+        """An expression whose constant-only parts stay where folder and combinators agree."""
+        return self._domain_guard(self._expr_raw(depth))
+
+    # C11 (compile-time arithmetic == run-time arithmetic) is not claimed: a constant-only
+    # sub-expression (literals, ints, typed literals of them) is only generated where the
+    # compiler's folders (Python `//`, `%`, unbounded products, masked `<<`) and the 32-bit
+    # run-time arithmetic give the same value; otherwise one side becomes a wire value.
+    def _cval(self, e):
+        k = e[0]
+        if k == "lit":
+            return e[1]
+        if k == "var":
+            if e[1] in self.c.ints:
+                return self.c.ints[e[1]]
+            return self.c.consts.get(e[1])
+        if k in ("siglit", "siglitt"):
+            return self._cval(e[2])
+        if k in ("proj", "projt"):
+            return self._cval(e[1])
+        if k == "neg":
+            v = self._cval(e[1])
+            return None if v is None else -v
+        if k == "bin" and e[1] in _PYFOLD:
+            a, b = self._cval(e[2]), self._cval(e[3])
+            if a is None or b is None:
+                return None
+            try:
+                return _PYFOLD[e[1]](a, b)
+            except (ZeroDivisionError, OverflowError, ValueError):
+                return None
+        return None
+
+    def _domain_guard(self, e):
+        from .world import arith
+
+        lo, hi = -(1 << 31), (1 << 31) - 1
+        if e[0] == "neg":
+            v = self._cval(e[1])
+            if v is not None and not (lo <= -v <= hi):
+                return ["neg", self.sig_leaf()]
+            return e
+        if e[0] != "bin" or e[1] not in _PYFOLD:
+            return e
+        a, b = self._cval(e[2]), self._cval(e[3])
+        if a is None or b is None:
+            return e
+        ok = lo <= a <= hi and lo <= b <= hi
+        if ok:
+            try:
+                folded = _PYFOLD[e[1]](a, b)
+                ok = folded == arith("^" if e[1] == "**" else e[1], a, b)
+            except (ZeroDivisionError, OverflowError, ValueError):
+                ok = False
+        if ok and e[1] in ("**", "<<", ">>") and not (0 <= b <= 31):
+            ok = False
+        if ok:
+            return e
+        return ["bin", e[1], self.sig_leaf(), e[3]]
+
+    def _expr_raw(self, depth: int):
         ch, f = self.ch, self.f
         kinds = [(8, "arith")]
         if f["ops_bit"]:
@@ -334,6 +410,24 @@ class ScalarGen:
             name = c.fresh("u")
             c.stmts.append(["decl", "Signal", name, self.lit(ch.i32_biased(-100, 100))])
             c.sigs.append(name)
+        if self.f.get("folded_consts"):
+            # named values the IR optimiser folds (never user-declared constants): later statements
+            # read them, some folding further, some at run time
+            for _ in range(ch.rint(1, 2)):
+                for _try in range(8):
+                    v = ch.i32_biased(-100, 100)
+                    t = ch.pick(self.type_pool())
+                    left = ["proj", self.lit(v), t] if ch.chance(1, 2) else ["siglit", t, self.lit(v)]
+                    ops = ["+", "-", "*"] + (["/", "%"] if self.f["divmod"] else [])
+                    e = ["bin", ch.pick(ops), left, self.lit(ch.i32_biased(-20, 20))]
+                    if self._domain_guard(e) is e:
+                        break
+                else:
+                    continue
+                name = c.fresh("z")
+                c.stmts.append(["decl", "Signal", name, e])
+                c.sigs.append(name)
+                c.consts[name] = self._cval(e)
         for _ in range(n_stmts):
             e = self.expr(ch.rint(0, max_depth))
             if self.f.get("fresh_types"):
@@ -346,6 +440,8 @@ class ScalarGen:
             name = c.fresh("s")
             c.stmts.append(["decl", "Signal", name, e])
             c.sigs.append(name)
+            if self._cval(e) is not None:
+                c.consts[name] = self._cval(e)
             if e[0] in ("proj", "siglit", "projt", "siglitt"):
                 c.typed.append(name)
         return c.stmts
